@@ -587,7 +587,7 @@ func c01Config(tp *simkit.Tape) c01Cfg {
 	c.StartIndex = []uint64{0, 0, 254, 65534, 4294967294, 1<<53 - 2, 1<<62 - 1}[tp.Draw(7)]
 	n := tp.Range(3, 10)
 	ops := []string{"E", "Ao", "Ap", "At", "T", "Ro", "Rt", "Y"}
-	if tp.Chance(1, 10) {
+	if tp.Chance(1, 6) {
 		// wide: many consumers, all busy - the list of dispatched items gets long and completions come out of order
 		c.Mode = "plan"
 		c.Consumers = tp.Range(9, 12)
